@@ -55,11 +55,17 @@ func vpC03Setup(t *rapid.T, tag string) (*vpLedger, []*vpC03Cand) {
 	free := l.Unspent(&btc, true, true)
 	var cands []*vpC03Cand
 	n := rapid.IntRange(3, 8).Draw(t, "ncand")
+	// the external deposit identifier is (chain, transaction id, output index);
+	// the asset key a deposit names for it is not part of the identifier, so two
+	// deposits that describe the same external output with different asset keys
+	// contend for one slot
 	depIds := []struct {
 		chain crypto.Hash
 		tx    string
 		idx   uint64
-	}{{l.Assets[1].Chain, "0xabc", 0}, {l.Assets[1].Chain, "0xabc", 1}, {l.Assets[1].Chain, "0xabc:1", 0}, {l.Assets[1].Chain, "0xab", 0}, {common.EthereumAssetId, "0xabc", 0}, {l.Assets[1].Chain, "0xabc:0", 1}}
+		key   string
+	}{{l.Assets[1].Chain, "0xabc", 0, ""}, {l.Assets[1].Chain, "0xabc", 1, ""}, {l.Assets[1].Chain, "0xabc:1", 0, ""}, {l.Assets[1].Chain, "0xab", 0, ""}, {common.EthereumAssetId, "0xabc", 0, ""}, {l.Assets[1].Chain, "0xabc:0", 1, ""},
+		{l.Assets[1].Chain, "0xabc", 0, "0xdac17f958d2ee523a2206206994597c13d831ec7"}, {l.Assets[1].Chain, "0xabc", 1, "another-asset-key"}}
 	for i := 0; i < n; i++ {
 		l.Seq++
 		c := &vpC03Cand{}
@@ -67,6 +73,9 @@ func vpC03Setup(t *rapid.T, tag string) (*vpLedger, []*vpC03Cand) {
 		case 0: // deposit candidate
 			d := depIds[rapid.IntRange(0, len(depIds)-1).Draw(t, "dep_id")]
 			a := vpLAsset{Id: l.Assets[1].Id, Chain: d.chain, Key: l.Assets[1].Key}
+			if d.key != "" {
+				a.Key = d.key
+			}
 			c.ver = l.BuildDeposit(&a, common.NewInteger(1), vpLOut{Owners: []int{0}, Threshold: 1}, d.tx, d.idx, nil)
 			c.slots = []string{fmt.Sprintf("D|%s|%s|%d", d.chain, d.tx, d.idx)}
 			c.kind = "deposit"
@@ -177,7 +186,7 @@ func (m *vpC03Model) holdsAll(c *vpC03Cand) bool {
 
 func TestVP_C03_owned_schedule(t *testing.T) {
 	c := kit.New(t, "C03", "rapid: 3..8 candidate transactions with overlapping slot sets (shared outputs; deposit ids differing only in chain / tx id / index incl. ids with ':'; mint batches) and a drawn global order of 10..60 lock (ordinary / finalization-path), persist, finalize and read operations (each lock call is one mutex-guarded store update, so call-granularity orders are the interleavings); oracle: sequential reference model of holder/body/finalized per slot - ordinary lock of a foreign-held slot fails and changes nothing, relock is idempotent, takeover succeeds iff no displaced holder is finalized and deletes the displaced body in the same observation, reads agree with the model after every step; non-trivial = history with a contended slot and a takeover; distinct by operation list")
-	c.Require("contended", "takeover", "takeover-refused", "relock", "atomic-fail", "deposit-cand", "mint-cand", "near-deposit-ids")
+	c.Require("contended", "takeover", "takeover-refused", "relock", "atomic-fail", "deposit-cand", "mint-cand", "near-deposit-ids", "source-refinalized")
 	kit.SetChecks(kit.N(150, 6000))
 	rapid.Check(t, func(t *rapid.T) {
 		l, cands := vpC03Setup(t, "c03")
@@ -276,7 +285,7 @@ func TestVP_C03_owned_schedule(t *testing.T) {
 				if !m.holdsAll(cd) {
 					continue
 				}
-				if cd.kind == "deposit" && cd.ver.Inputs[0].Deposit.Chain != l.Assets[1].Chain {
+				if cd.kind == "deposit" && (cd.ver.Inputs[0].Deposit.Chain != l.Assets[1].Chain || cd.ver.Inputs[0].Deposit.AssetKey != l.Assets[1].Key) {
 					continue // the asset is bound to another (chain,key): the body is refused, by design
 				}
 				if err := l.Store.WriteTransaction(cd.ver); err != nil {
@@ -290,7 +299,7 @@ func TestVP_C03_owned_schedule(t *testing.T) {
 				}
 				if cd.kind == "deposit" {
 					// asset binding: only deposits matching the bound (chain,key) can finalize
-					if cd.ver.Inputs[0].Deposit.Chain != l.Assets[1].Chain {
+					if cd.ver.Inputs[0].Deposit.Chain != l.Assets[1].Chain || cd.ver.Inputs[0].Deposit.AssetKey != l.Assets[1].Key {
 						continue
 					}
 				}
@@ -301,7 +310,11 @@ func TestVP_C03_owned_schedule(t *testing.T) {
 				l.Topo++
 				m.final[cd.hash] = true
 				trace = append(trace, fmt.Sprintf("finalize(%s)", cd.hash.String()[:8]))
-			default:
+			default: // a transaction that funded the slots is finalized once more by another chain's snapshot: reservations on its outputs must survive
+				if mt := l.StepRefinalize(t); mt != nil {
+					trace = append(trace, fmt.Sprintf("refinalize-source(%s)", mt.Hash.String()[:8]))
+					classes["source-refinalized"] = true
+				}
 			}
 			check(fmt.Sprintf("after op %d", i))
 		}
